@@ -93,15 +93,17 @@ class Environment(object):
                 self._run()
 
     def _call(self, name, *args, **kwargs):
-        try:
-            self.conn
-        except AttributeError:
-            self.run()
-
         # one request at a time: the reply that comes back is the one to it
         with self.call_lock:
-            self.conn.send_bytes(dumps((name, args, kwargs)))
-            result, is_ok = loads(self.conn.recv_bytes())
+            # close() in another thread takes the connection away before it
+            # tells the server (under this lock): the one seen here is alive
+            conn = self.__dict__.get('conn')
+            while conn is None:
+                self.run()
+                conn = self.__dict__.get('conn')
+
+            conn.send_bytes(dumps((name, args, kwargs)))
+            result, is_ok = loads(conn.recv_bytes())
 
         if is_ok:
             return result
